@@ -23,6 +23,9 @@ from . import common as cm
 M64 = (1 << 64) - 1
 
 
+ALSO_PORTABLE = True
+
+
 def run(ctx, chk):
     prog = ctx.prog()
     chk.configs.append("native -O0+mem2reg (HAVE_MMAP, HAVE_MPROTECT)")
